@@ -6,6 +6,7 @@ package kit07
 import (
 	"fmt"
 	"net"
+	"os"
 	"strings"
 	"sync"
 	"testing"
@@ -35,12 +36,12 @@ type Case struct {
 	Lua       bool   `json:"filter_lua"`
 	KeyExists string `json:"key_exists"`
 	Pre       bool   `json:"preexisting_first_key"`
-	FailAt    int    `json:"fail_restore_number"` // 0: none, j: the j-th RESTORE gets an error reply
+	FailAt    int    `json:"fail_restore_number"`  // 0: none, j: the j-th RESTORE gets an error reply
 	FailMsg   string `json:"fail_reply,omitempty"` // the error reply (without '-'); default "ERR injected failure"
 	// Retry: after the injected failure was reported, the run is started again against an emptied
 	// target, the way DbSyncer.Sync restarts a failed full sync (`go ds.Sync()` on the same object)
-	Retry bool `json:"retry_after_failure,omitempty"`
-	Trail     []int  `json:"trail"`
+	Retry bool  `json:"retry_after_failure,omitempty"`
+	Trail []int `json:"trail"`
 }
 
 var registry = mredis.NewRegistry()
@@ -393,9 +394,17 @@ func Scenarios() []Case {
 		// filtered entries (key whitelist p) sitting exactly where a worker has to switch database
 		{k(1, "qa", "string"), k(1, "pb", "string"), k(2, "qc", "list"), k(2, "pd", "hash"), k(2, "pe", "string")},
 	}
+	workers := []int{1, 2, 3}
+	if os.Getenv("VERIF_TIER") == "thorough" {
+		// longer RDBs and a fourth worker; their grant orders are explored within 3 deviations
+		rdbs = append(rdbs,
+			[]Key{k(0, "pa", "string"), k(0, "pb", "list"), k(1, "pc", "hash"), k(1, "qd", "string"), k(2, "pe", "string"), k(2, "s1", "lua"), k(0, "pf", "list"), k(0, "pg", "string")},
+			[]Key{k(3, "qa", "string"), k(3, "pb", "string"), k(1, "pc", "list"), k(1, "pd", "hash"), k(1, "pe", "string"), k(0, "pf", "string"), k(0, "qg", "hash")})
+		workers = []int{1, 2, 3, 4}
+	}
 	var out []Case
 	for _, keys := range rdbs {
-		for _, w := range []int{1, 2, 3} {
+		for _, w := range workers {
 			for _, tdb := range []int{-1, 3} {
 				names := map[string]bool{}
 				clash := false
